@@ -155,6 +155,25 @@ pub fn load_findings() -> Findings {
     }
 }
 
+// ---- fault / schedule trace of the execution that is written into a replay file -------------
+// Filled only while `report_violation` re-executes the minimised case (single-threaded phase), so
+// recording never perturbs a run: nothing here draws randomness or reads a clock.
+static TRACE_ON: std::sync::atomic::AtomicBool = std::sync::atomic::AtomicBool::new(false);
+static TRACE_SINK: Mutex<Vec<String>> = Mutex::new(Vec::new());
+
+pub fn trace_on() -> bool {
+    TRACE_ON.load(Ordering::Relaxed)
+}
+
+pub fn trace_note(line: String) {
+    if trace_on() {
+        let mut t = TRACE_SINK.lock().unwrap();
+        if t.len() < 1500 {
+            t.push(line);
+        }
+    }
+}
+
 #[derive(Serialize, Deserialize)]
 pub struct ReplayFile {
     pub property: String,
@@ -169,6 +188,9 @@ pub struct ReplayFile {
     pub minimised: bool,
     pub shrink_steps: u64,
     pub case: Value,
+    /// I/O calls, injected faults and child processes of the (minimised) failing execution
+    #[serde(default)]
+    pub trace: Vec<String>,
 }
 
 pub fn make_ctx(worker: usize, tier: Tier) -> Ctx {
@@ -492,7 +514,11 @@ fn report_violation<P: Prop>(p: &P, seed: u64, idx: u64, v: &Violation, tier: Ti
             }
         }
     }
+    TRACE_SINK.lock().unwrap().clear();
+    TRACE_ON.store(true, Ordering::Relaxed);
     let out = run_isolated(p, &case, ctx);
+    TRACE_ON.store(false, Ordering::Relaxed);
+    let trace = std::mem::take(&mut *TRACE_SINK.lock().unwrap());
     let digest = out.digest;
     let rf = ReplayFile {
         property: p.id().to_string(),
@@ -507,6 +533,7 @@ fn report_violation<P: Prop>(p: &P, seed: u64, idx: u64, v: &Violation, tier: Ti
         minimised: steps > 0,
         shrink_steps: steps,
         case: serde_json::to_value(&case).unwrap(),
+        trace,
     };
     let dir = std::env::var("VERIF_REPLAY_DIR").map(PathBuf::from).unwrap_or_else(|_| verif_root().join("replays"));
     let _ = std::fs::create_dir_all(&dir);
